@@ -1018,3 +1018,14 @@ class Sweeper:
                    "final_after_kill": o1["final"], "tmp_after_kill": o1["tmp"],
                    "host_requests_first": [x["kind"] for x in hl1], "host_requests_restart": [x["kind"] for x in hl2]}
         return rows, summary
+
+
+def cleanup_traces(prefix):
+    """trace/script files of this process are scratch once TLC has decided them (violating cases are saved as replays)"""
+    d = os.path.join(util.BUILD, "traces")
+    try:
+        for n in os.listdir(d):
+            if n.startswith(prefix) and ("_%d" % os.getpid()) in n:
+                os.unlink(os.path.join(d, n))
+    except OSError:
+        pass
